@@ -193,7 +193,8 @@ def run_stage(ctx):
         "core_stage_retain": nt("retain"), "core_stage_release": nt("release"), "core_stage_release_inside_actions": nt("release_absorbed"),
         "core_stage_collector_removals": nt("gc_removed"), "core_stage_moves_inserted": nt("glue_move"), "core_stage_nots_inserted": nt("glue_not"),
         "core_stage_snapshots_compared": nt("snapshots_compared"), "core_stage_nodes_compared": nt("nodes_compared"),
-        "core_stage_invariant_audits": nt("invariant_audits"), "core_stage_par_blocks": nt("par_blocks"),
+        "core_stage_invariant_audits": nt("invariant_audits"), "core_stage_gc_ops_compared_with_kcollect": nt("kcollect_compared"),
+        "core_stage_apply_cache_revivals_emulated": nt("cache_revivals_emulated"), "core_stage_par_blocks": nt("par_blocks"),
         "core_stage_par_blocks_followed": nt("par_blocks_followed"), "core_stage_stores": nt("stores"),
         "core_stage_paths": {k[5:]: v for k, v in sorted(st.items()) if k.startswith("path_")},
     }
